@@ -491,12 +491,48 @@ def tagless_scenarios(rnd, n):
     return hs
 
 
+def join_scenarios(rnd, n):
+    """Targeted histories for read-only calls on an object read under JOIN_SAME_ENTRIES from exactly ONE file (the result is the
+    option object itself, it keeps the option): keys defined repeatedly, then writes - also a refused one into a missing
+    directory -, getters and listings, each followed by a full dump."""
+    hs = []
+    for i in range(n):
+        m = Mixed(rnd, 700 + i, ops={"readconfig_opt", "write", "get", "listings"})
+        m.optmode = "join"
+        m.script.append("mkdir %s" % hx(m.R + "/out"))
+        m.conv.append(None)
+        lines = ["a=one", "b=1", "a=two"] + (["[S]", "c=x", "c=y", "c=z"] if rnd.random() < 0.6 else []) + (["a=three"] if rnd.random() < 0.3 else [])
+        f = "/etc/cfg.conf"
+        m.files.add(f)
+        m.seen_by[f] = [(None, "a"), (None, "b"), ("S", "c")]
+        m.add("file %s %s" % (hx(m.R + f), hx("\n".join(lines) + "\n")), None)
+        m.script.append("echo f")
+        m.conv.append(lambda ev, root, f=f, lines=lines: [{"e": "file", "path": codes(f), "lines": [codes(x) for x in lines]}])
+        m.op_readconfig_opt(1)
+        m.src[1] = [f]
+        m.op_dump(1)
+        for _ in range(rnd.randint(2, 6)):
+            x = rnd.random()
+            if x < 0.45:
+                m.op_write(1)
+            elif x < 0.6:
+                m.add("write 1 %s %s" % (hx(m.R + "/no/such/dir"), hx("w.conf")), lambda ev, root: [{"e": "write", "h": 1, "path": codes("/no/such/dir/w.conf"), "rc": ev["rc"], "dir_ok": False}])
+            elif x < 0.8:
+                m.op_get(1)
+            else:
+                m.op_keys(1)
+            m.op_dump(1)
+        m.op_free(1)
+        hs.append(m)
+    return hs
+
+
 def run_mixed(exe, rnd, n, verdict, pid, nops=(10, 60), comments=False):
     hs = [Mixed(rnd, i, ops=OPS.get(pid), comments=comments, errloc=(pid in ("C13", "ALL")), bad_rate=0.4 if pid == "C13" else (0.06 if pid == "ALL" else 0.0)).build(rnd.randint(*nops)) for i in range(n)]
     if pid == "C07":
         hs += quoted_scenarios(rnd, max(40, n // 3))
     if pid == "C10":
-        hs += tagless_scenarios(rnd, max(40, n // 3))
+        hs += tagless_scenarios(rnd, max(40, n // 3)) + join_scenarios(rnd, max(30, n // 4))
     res = core.run_cases(exe, [(i, h.script) for i, h in enumerate(hs)])
     events = []
     spans = []
